@@ -10,7 +10,7 @@ import common
 import sched
 import scratch as sc
 
-NAMES = ["t1", "t10", "t\u00fc", "t20", "t3"]  # prefix siblings and a non-ASCII name
+NAMES = ["t1", "t10", "t\u00fc", "t20-" + "\u00e9\u20ac" * 10, "t3"]  # prefix siblings, a short non-ASCII name, a 54-byte name made of 2- and 3-byte characters
 
 # edge (i, j): target i `uses` target j, i.e. i depends on j
 SHAPES = {
@@ -80,6 +80,8 @@ def c04_monitor(sn):
     tm = tmap(sn.targets)
     cidx = {c: i for i, c in enumerate(sn.commands)}
 
+    reach = {}   # target -> everything it depends on, transitively (also through targets outside the run)
+
     def mon(ex):
         out = []
         for (cmd, t), seqs in ex.arrive.items():
@@ -90,7 +92,7 @@ def c04_monitor(sn):
                 if (c2, u) == (cmd, t) or c2 not in cidx:
                     continue
                 need = None
-                if c2 == cmd and u in tm and t in tm and sched.dep(tm, t, u):
+                if c2 == cmd and u in tm and t in tm and u != t and u in reach.setdefault(t, sched.closure(tm, [t])):
                     need = "%s depends on %s" % (t, u)
                 elif cidx[c2] < cidx[cmd]:
                     need = "command %s precedes %s" % (c2, cmd)
@@ -292,8 +294,8 @@ def c16_task(desc):
 
 # ------------------------------------------------------------------------------------------ C06 part A
 
-FAULT_KINDS_Q = [("exit", 1), ("exit", 255), ("signal", 9), ("nox", None), ("undef_flag", None), ("undef_noflag", None)]
-FAULT_KINDS_T = [("exit", 1), ("exit", 2), ("exit", 127), ("exit", 255), ("signal", 9), ("signal", 11), ("signal", 15), ("nox", None), ("undef_flag", None), ("undef_noflag", None)]
+FAULT_KINDS_Q = [("exit", 1), ("exit", 255), ("signal", 9), ("nox", None), ("noxlink", None), ("undef_flag", None), ("undef_noflag", None)]
+FAULT_KINDS_T = [("exit", 1), ("exit", 2), ("exit", 127), ("exit", 255), ("signal", 9), ("signal", 11), ("signal", 15), ("nox", None), ("noxlink", None), ("undef_flag", None), ("undef_noflag", None)]
 
 
 def c06_scenarios(tier):
@@ -331,8 +333,8 @@ def c06_build(desc):
             faults[(c, t)] = code
         elif kind == "signal":
             faults[(c, t)] = -code   # the process dies by this signal: it never exits with a code
-        elif kind == "nox":
-            modes[(t, c)] = "nox"
+        elif kind in ("nox", "noxlink"):
+            modes[(t, c)] = kind
         else:
             modes[(t, c)] = None
             if kind == "undef_flag":
@@ -385,7 +387,7 @@ def c06_monitor(sn):
                     out.append(("process-started-for-" + st, "%s:%s reported %s but a process was started" % (c, t, st)))
             # truthfulness of the recorded mode
             m = sn.cmdmodes.get((t, c))
-            if m == "nox" and st not in ("not_executable", "skipped"):
+            if m in ("nox", "noxlink") and st not in ("not_executable", "skipped"):
                 out.append(("nox-misreported", "%s:%s has no x bit but is reported %s" % (c, t, st)))
             if m is None and st not in ("undefined", "skipped"):
                 out.append(("undefined-misreported", "%s:%s is undefined but reported %s" % (c, t, st)))
@@ -561,6 +563,7 @@ def c05_scenarios(tier):
             {},                                           # everything defined
             {(paths[0], "test"): None},                   # one target lacks test
             {(paths[-1], "build"): "nox"},                # one target has a non-executable build
+            {(paths[0], "build"): "x700", (paths[-1], "build"): "x750", (paths[0], "test"): "x744"},   # executable, but not for everybody
         ]
         if tier != "quick":
             patterns.append({(p, "test"): None for p in paths[::2]})
@@ -701,8 +704,8 @@ def c05_task(desc):
                 else:
                     idx = {t: i for i, g in enumerate(groups) for t in g}
                     for t in selected:
-                        for u in selected:
-                            if sched.dep(tm, t, u) and t in idx and u in idx and not idx[u] < idx[t]:
+                        for u in sched.closure(tm, [t]):
+                            if u != t and u in selected and t in idx and u in idx and not idx[u] < idx[t]:
                                 viol.append(("deps-groups-not-a-layering", "%s depends on %s but groups are %s" % (t, u, cr["target_groups"])))
             if bool(doc.get("checkpointed")) != bool(desc["checkpoint"] and desc["explicit"] is None):
                 viol.append(("checkpointed-flag-wrong", "checkpointed=%s" % doc.get("checkpointed")))
@@ -716,9 +719,10 @@ def c05_task(desc):
                         m = modes.get((t, cr["command"]))
                         if k > 1:
                             viol.append(("started-twice", "%s:%s started %d times" % (cr["command"], t, k)))
-                        if m != "x" and k > 0:
+                        is_x = bool(m) and m.startswith("x")
+                        if not is_x and k > 0:
                             viol.append(("started-undefined", "%s:%s is %s but a process was started" % (cr["command"], t, m)))
-                        if m == "x" and not failed_before and v["status"] != "skipped" and k != 1:
+                        if is_x and not failed_before and v["status"] != "skipped" and k != 1:
                             viol.append(("not-started", "%s:%s defined and nothing failed earlier, started %d times (status %s)" % (cr["command"], t, k, v["status"])))
                     if any(v["status"] in ("error", "not_executable") for v in grp.values()):
                         failed_before = True
